@@ -12,7 +12,8 @@ import l1b
 PROP = "C10"
 RULE = ("(a) name level: all transfer-mode x platform-code combinations incl. near misses (wrong case, 5-letter modes, "
         "unknown ids, broken separators) handed to the four classes' _validate_header; (b) file level: spec-written files "
-        "of the four formats with the name in the header (ASCII and EBCDIC cp500), only in the file name, or both; supplied "
+        "of the four formats with the name in the header (ASCII and EBCDIC cp500), only in the file name, or both, and with every "
+        "other header field set to random bytes (POD start-time day bits 0..511); supplied "
         "as path, PathLike, open binary file, BytesIO at positions 0 and p>0, gzip-compressed; archive headers; (c) histories: "
         "random permutations of the candidate list and random sequences of selections; (d) faults: random bytes, empty and "
         "1-byte files, truncation at every structural boundary and at random offsets, gzip truncated at random offsets "
@@ -53,6 +54,26 @@ def make_file(fmt, name, header_name=None, n=3, archive=False):
     lines = l1b.default_lines(fmt, n, start)
     hn = name.encode("ascii") if header_name is None else header_name
     return l1b.build_file(fmt, sc, start, lines, name=hn, archive=archive)
+
+
+def scramble_header(fmt, data, rng):
+    """Every header field except the data-set name gets random bytes (POD: the year bits of the start time, which select
+    the header layout and thereby where the name is stored, are kept; its day-of-year bits take any 9-bit value)."""
+    fam = l1b.FMT[fmt]["family"]
+    lay = "klm_header" if fam == "klm" else "pod_header%d" % l1b.pod_header_epoch(datetime.date(1996, 4, 5))
+    b = bytearray(data)
+    for name, leaf in l1b.LEAVES[lay].items():
+        if name == "data_set_name":
+            continue
+        off, w, st, cnt = leaf["off"], leaf["width"], leaf["stride"], leaf["count"]
+        for k in range(cnt):
+            if name == "start_time" and k == 0 and fam == "pod":
+                yr = (b[off] << 8 | b[off + 1]) >> 9
+                b[off:off + 2] = ((yr << 9) | rng.choice([0, 1, 366, 367, 400, 511, rng.randrange(512)])).to_bytes(2, "big")
+                continue
+            for j in range(w):
+                b[off + k * st + j] = rng.getrandbits(8)
+    return bytes(b)
 
 
 def select(filename, fileobj=None):
@@ -118,6 +139,8 @@ def run(res, tier, seed):
             if fam == "pod":       # the 44-byte name field padded with non-ASCII bytes behind the 42-character name
                 files.append((fmt, "NSS.%s.%s.D03095.S0607.E0609.B0000000.WI" % (ml[-1], idl[1]), "highpad"))
             files.append((fmt, "NSS.%s.%s.D03095.S0607.E0609.B0000000.WI" % (ml[-1], idl[-1]), "filename-only"))
+            for _ in range(2 if tier == "quick" else 8):   # the name alone decides: every other header field random
+                files.append((fmt, "NSS.%s.%s.D03095.S0607.E0609.B0000000.WI" % (rng.choice(ml), rng.choice(idl)), "otherfields"))
             files.append((fmt, "NSS.%s.%s.D03095.S0607.E0609.B0000000.WI" % (ml[0], "XX"), "ascii"))        # unknown platform
             files.append((fmt, "NSS.%s.%s.D03095.S0607.E0609.B0000000.WI" % ("XXXX", idl[0]), "ascii"))    # unknown mode
         blobs = []
@@ -131,6 +154,9 @@ def run(res, tier, seed):
             elif enc == "filename-only":
                 data = make_file(fmt, nm, header_name=b"\x00" * 42)
                 fname = nm
+            elif enc == "otherfields":
+                data = scramble_header(fmt, make_file(fmt, nm), rng)
+                fname = "somefile"
             else:
                 data = make_file(fmt, nm, archive=rng.random() < 0.5)     # with / without the ARS / TBM archive header
                 fname = rng.choice(["somefile", nm, "/data/" + nm + ".gz"])
